@@ -65,6 +65,17 @@ Theorem C01_placeholder :
 Proof. exact main_placeholder. Qed.
 Print Assumptions C01_placeholder.
 
+(* ... and there the policy is still a distribution over the state's own available actions *)
+Theorem C01_placeholder_policy_available :
+  forall nS nA P Rw av ab ini g V Qv Pi iv tl,
+  @c01_check Q NumQ (mk_mdp nS nA P Rw av ab ini g) (mk_out V Qv Pi iv) tl = all_true ->
+  forall s, (s < nS)%nat -> unable_to_reach (mR nS nA P Rw av ab ini g) s = true ->
+    absorbing (mR nS nA P Rw av ab ini g) s = false ->
+    (forall a, (a < nA)%nat -> 0 < oPi (oR V Qv Pi iv) s a -> avail (mR nS nA P Rw av ab ini g) s a = true) /\
+    Rabs (sumf nA (oPi (oR V Qv Pi iv) s) - 1) <= Q2R (ptol tl).
+Proof. exact main_placeholder_policy. Qed.
+Print Assumptions C01_placeholder_policy_available.
+
 (* the policy only plays available actions whose TRUE optimal action value is within eta of optimal *)
 Theorem C01_policy_support :
   forall nS nA P Rw av ab ini g V Qv Pi iv tl,
